@@ -36,7 +36,9 @@ class C17(Check):
             "(operator call directly as an argument of another operator: Aggregate, Result*), is given to the "
             "real change_extension_functions_to_calls; the result must equal an independent reference "
             "rewrite, contain no method-form operator call, be a fixpoint, leave the input untouched and "
-            "evaluate to the same value on every dataset. Non-trivial = input had >= 1 method-form operator")
+            "evaluate to the same value on every dataset; histories convert -> edit the result below its root (in place, or in a "
+            "deep copy) so that it holds method-form calls again -> convert: the new calls must be converted too. "
+            "Non-trivial = input had >= 1 method-form operator")
     assumptions = [
         "operator calls carry positional arguments only (the statement fixes seq.Op(args...))",
         "decoy methods cannot be evaluated (no Python meaning): structural oracle only for those",
@@ -103,6 +105,25 @@ class C17(Check):
                 res["viol"].append({"kind": "first-result-changed-by-a-later-conversion", "canon": canon, "msg": ast.unparse(r)[:150]})
         except Exception as e:
             res["viol"].append({"kind": f"second-conversion-raised:{type(e).__name__}", "canon": canon, "msg": str(e)[:100]})
+        # convert -> another pass edits the RESULT below its root so that it holds method-form calls again (in place, or in
+        # a deep copy of it) -> convert again: the new calls must be converted as well
+        for variant in ("in-place", "deep-copy"):
+            try:
+                rr = self._transform(copy.deepcopy(q))
+                if variant == "deep-copy":
+                    rr = copy.deepcopy(rr)
+                if not _graft(rr):
+                    break
+                want = ast.dump(_Ref().visit(copy.deepcopy(rr)))
+                r4 = self._transform(rr)
+                res["n"] += 1
+                if ast.dump(r4) != want:
+                    res["viol"].append({"kind": f"edited-result-not-converted-again:{variant}", "canon": canon,
+                                        "msg": f"{ast.unparse(r4)[:200]}"})
+                    break
+            except Exception as e:
+                res["viol"].append({"kind": f"edited-result-conversion-raised:{type(e).__name__}", "canon": canon, "msg": str(e)[:100]})
+                break
         return r
 
     def run_q(self, src):
@@ -202,6 +223,24 @@ class C17(Check):
         res = {"n": 0, "nt": [src], "oc": ["struct"], "tags": {}, "viol": []}
         self._structural(src, qsem.parse_expr(src), res, src)
         return res
+
+
+def _graft(root):
+    "replace the first plain name below the root (not a callee) by a method-form query, in place; False if there is none"
+    snippet = ast.parse("zs.Where(lambda z: z.ks.Count() > 1).First()", mode="eval").body
+    for p in ast.walk(root):
+        for f, v in ast.iter_fields(p):
+            if isinstance(p, ast.Call) and f == "func":
+                continue
+            if isinstance(v, ast.Name) and isinstance(v.ctx, ast.Load) and v is not root:
+                setattr(p, f, snippet)
+                return True
+            if isinstance(v, list):
+                for k, x in enumerate(v):
+                    if isinstance(x, ast.Name) and isinstance(x.ctx, ast.Load) and x is not root:
+                        v[k] = snippet
+                        return True
+    return False
 
 
 def _arg_cases():
